@@ -86,6 +86,10 @@ theorem c20_gate_disabled (init : Bool) (pre mid post : List GateOp)
   rw [lastToggle_registers mid false hmid]
 
 example : gateTrace false [.disable, .register] = [none, some false] := by decide
+example : ([GateOp.enable] : List GateOp)[0]? = some GateOp.enable ∧ GateOp.enable ≠ GateOp.register := by decide
+example : ∀ o ∈ [GateOp.register, GateOp.register], o = GateOp.register := by decide
+example : (gateTrace true ([.enable] ++ GateOp.disable :: [.register, .register] ++ GateOp.register :: [.enable]))[4]? =
+    some (some false) := c20_gate_disabled true [.enable] [.register, .register] [.enable] (by decide)
 example : gateTrace false [.enable, .register, .disable, .register, .register, .enable, .register] =
     [none, some true, none, some false, some false, none, some true] := by decide
 example : ([GateOp.enable, .register] : List GateOp)[1]? = some GateOp.register := by decide
@@ -147,6 +151,8 @@ def demoEnv : ServeEnv Nat Nat :=
     serialise := fun v _ => some (v + 1, ['t']) }
 example : serve demoEnv decUtf8 (quote ['a', ' ']) = .ok 2 ['t'] :=
   c20_serve_faithful demoEnv decUtf8_ok _ 1 none 2 ['t'] (by simp [demoEnv]) rfl
+example : (serve demoEnv decUtf8 (quote ['a', ' '])).is2xx = true := by
+  rw [c20_serve_faithful demoEnv decUtf8_ok _ 1 none 2 ['t'] (by simp [demoEnv]) rfl]; rfl
 example : demoEnv.evaluate (unquote decUtf8 ['b']) = .errorState := by
   have : unquote decUtf8 ['b'] = ['b'] := c20_wire decUtf8_ok ['b']
   rw [this]; simp [demoEnv]
@@ -219,6 +225,9 @@ theorem runCalls_routeDoes {σ K P R} (lib : Lib σ K P R) (law : ReadOnlyLaw li
         simpa using hc.2
       simp only [runCalls, List.foldl_cons, law c.1 k p s hro]
       exact ih s h
+
+example : routeDoes ⟨['/', 'x'], [sPOST], ['v'], [(.storeGetMetadata, .path), (.storeStore, .path)]⟩ .storeStore = true ∧
+    routeDoes ⟨['/', 'x'], [sGET], ['v'], [(.storeRemove, .path), (.storeStore, .path)]⟩ .storeStore = false := by decide
 
 /-- a history of calls to documented endpoints, executed by the served views … -/
 def runEndpoints {σ K P R} (lib : Lib σ K P R) (routes : List Route) :
